@@ -4,3 +4,4 @@ open O2P.Diagram
 #print axioms parse_ok_core
 #print axioms runs_types
 #print axioms grammar_complete
+#print axioms O2P.Writer.writer_vocabulary
